@@ -69,6 +69,36 @@ class C10Mixin(object):
         out["str"] = str(f)
         return out
 
+    def ev_formula_reuse(self, src, s, op, dst):
+        """A Formula parsed with table=src is kept by the caller and then handed, as an object, to
+        another entry point together with table=dst (or without a table).  Afterwards the caller's
+        formula must still contain only atoms of src."""
+        pt = self.pt
+        f = pt.formula(s, table=self.table(src))
+        before = self._membership(src, f)
+        kw = {} if dst is None else {"table": self.table(dst)}
+        try:
+            if op == "formula":
+                pt.formula(f, **kw)
+            elif op == "mix_weight":
+                pt.mix_by_weight(f, 2, "H2O@1", 1, **kw)
+            elif op == "mix_volume":
+                pt.mix_by_volume(f, 2, "H2O@1", 1, density=1.0, **kw) if f.density is None else \
+                    pt.mix_by_volume(f, 2, "H2O@1", 1, **kw)
+            elif op == "nsld":
+                pt.neutron_sld(f, density=1.0, wavelength=4.75, **kw)
+            elif op == "nscat":
+                pt.neutron_scattering(f, density=1.0, wavelength=4.75, **kw)
+            elif op == "d2o":
+                self.module("periodictable.nsf").D2O_sld(f, density=1.0, **kw)
+            else:
+                raise ValueError(op)
+            raised = None
+        except Exception as e:  # noqa: BLE001
+            raised = type(e).__name__
+        after = self._membership(src, f)
+        return {"before": before, "after": after, "raised": raised}
+
     def ev_mix(self, tbl, which, parts):
         t = self.table(tbl)
         fn = self.pt.mix_by_weight if which == "weight" else self.pt.mix_by_volume
